@@ -55,10 +55,54 @@ type Gen struct {
 	// Pre: wrap nodes below the top level in Preprocess schemas written for the case's mode
 	Pre  bool
 	mode string
+	forcedElem *Node
 	// Coercers: install named custom coercers (WithCoercer) on some primitives / slices
 	Coercers bool
 	// TopAll: custom and Preprocess schemas also at the top level
 	TopAll bool
+	// NestedDefaults: slices of slices with a nested Default, and PostTransforms that modify the first leaf of
+	// the destination IN PLACE (kind incdeep)
+	NestedDefaults bool
+}
+
+// AliasCase: Validate of an empty [][]T value against Slice(Slice(prim)) with a nested Default and in-place
+// mutating PostTransforms — the shape on which a shallow copy of the default shows (C19)
+func (g *Gen) AliasCase(id int) *Case {
+	g.NestedDefaults = true
+	r := g.R
+	var n *Node
+	for {
+		inner := &Node{Kind: "slice", Elem: g.NodeOf("prim", 2)}
+		pk := inner.Elem.PK
+		if pk != "int" && pk != "str" && pk != "bool" {
+			continue
+		}
+		inner.Posts = g.posts(inner)
+		n = g.sliceOver(inner)
+		if n.SliceDfltD != nil {
+			break
+		}
+	}
+	if len(n.Posts) == 0 || r.P(1, 2) {
+		n.Posts = append(n.Posts, PostSpec{ID: g.id(), Kind: "incdeep", DType: "slice"})
+	}
+	c := &Case{ID: id, Schema: n}
+	if r.P(3, 4) {
+		c.Mode = "v"
+		c.Dest = D{K: "sl"}
+	} else {
+		c.Mode = "p"
+		c.Input = VNil()
+		c.Dest = D{K: "sl"}
+	}
+	return c
+}
+
+// sliceOver builds a slice node over the given element node with the usual random modifiers
+func (g *Gen) sliceOver(elem *Node) *Node {
+	g.forcedElem = elem
+	defer func() { g.forcedElem = nil }()
+	return g.NodeOf("slice", 1)
 }
 
 func (g *Gen) id() int { g.nextID++; return g.nextID }
@@ -230,6 +274,9 @@ func (g *Gen) posts(n *Node) []PostSpec {
 			if ps.Kind == "set" || ps.Kind == "inc" || ps.Kind == "incfail" {
 				ps.Kind = "id"
 			}
+		}
+		if n.Kind == "slice" && g.NestedDefaults && r.P(1, 2) {
+			ps.Kind = "incdeep"
 		}
 		if ps.Kind == "set" {
 			if n.Kind == "prim" {
@@ -409,7 +456,12 @@ func (g *Gen) NodeOf(kind string, depth int) *Node {
 			}
 		}
 	case "slice":
-		n.Elem = g.Node(depth + 1)
+		if g.forcedElem != nil {
+			n.Elem = g.forcedElem
+			g.forcedElem = nil
+		} else {
+			n.Elem = g.Node(depth + 1)
+		}
 		for n.Elem.Kind == "ptr" && n.Elem.Elem.Kind == "ptr" {
 			n.Elem = g.Node(depth + 1)
 		}
@@ -436,6 +488,24 @@ func (g *Gen) NodeOf(kind string, depth int) *Node {
 				case "b":
 					vin.L = append(vin.L, VBool(d.B))
 				}
+			}
+			n.SliceDfltIn = &vin
+			n.SliceDfltD = &vd
+		}
+		if e := n.Elem; n.SliceDfltIn == nil && e.Kind == "slice" && e.Elem.Kind == "prim" && (e.Elem.PK == "int" || e.Elem.PK == "str" || e.Elem.PK == "bool") && g.NestedDefaults && r.P(60, 100) {
+			// a NESTED default ([][]T): the validated value must not share the default's inner slices
+			vin := V{K: "l"}
+			vd := D{K: "sl"}
+			for i := r.Range(1, 2); i > 0; i-- {
+				in := V{K: "l"}
+				dd := D{K: "sl"}
+				for j := r.Range(1, 3); j > 0; j-- {
+					d := g.primD(e.Elem.PK, true)
+					dd.L = append(dd.L, d)
+					in.L = append(in.L, dToV(d))
+				}
+				vin.L = append(vin.L, in)
+				vd.L = append(vd.L, dd)
 			}
 			n.SliceDfltIn = &vin
 			n.SliceDfltD = &vd
